@@ -40,6 +40,32 @@ def running_sum(rng, isa):
     return "\n".join(body) + "\n"
 
 
+def long_body(rng, isa):
+    """50-58 lines: a few registers are written by exactly one line (single-instruction loop-carried cycles), the others by several.
+    returns (text, indices of the single-instruction cycles)"""
+    n = rng.randrange(50, 59)
+    if isa == "x86":
+        once = ["%r8", "%r9", "%r10", "%r11"]
+        many = ["%rax", "%rbx", "%rcx", "%rdx", "%rsi", "%rdi"]
+        mk1 = lambda r: rng.choice(["addq $8, %s", "subq $1, %s", "incq %s"]) % r                       # noqa
+        mk2 = lambda a, b: rng.choice(["addq %s, %s", "imulq %s, %s", "movq %s, %s"]) % (a, b)          # noqa
+        vec = lambda: "vaddpd %%ymm%d, %%ymm%d, %%ymm%d" % (rng.randrange(8), rng.randrange(8), rng.randrange(8))   # noqa
+    else:
+        once = ["x19", "x20", "x21", "x22"]
+        many = ["x1", "x2", "x3", "x4", "x5", "x6"]
+        mk1 = lambda r: rng.choice(["add {0}, {0}, #8", "sub {0}, {0}, #1"]).format(r)                  # noqa
+        mk2 = lambda a, b: rng.choice(["add {1}, {1}, {0}", "mul {1}, {1}, {0}", "mov {1}, {0}"]).format(a, b)   # noqa
+        vec = lambda: "fadd d%d, d%d, d%d" % (rng.randrange(8), rng.randrange(8), rng.randrange(8))     # noqa
+    body = []
+    for _ in range(n - len(once)):
+        body.append(vec() if rng.random() < 0.45 else (mk2(*rng.sample(many, 2)) if rng.random() < 0.7 else mk1(rng.choice(many))))
+    singles = []
+    for r in once:
+        body.insert(rng.randrange(len(body) + 1), mk1(r))
+    singles = [i for i, l in enumerate(body) if any(r in l for r in once)]
+    return "\n".join(body) + "\n", singles
+
+
 def run(ctx):
     depcheck.prepare(ctx, "Props/C14.v")
     ctx.compile_theorems("Props/C05.v")
@@ -97,6 +123,21 @@ def run(ctx):
         except Exception as e:  # noqa
             ctx.coverage.setdefault("memory_kernel_errors", []).append(repr(e)[:200])
     depcheck.run_shards(ctx, memcases, "memory", size=10)
+    # bodies of 50 and more lines take the PARALLEL path search: the rotations that put each single-instruction cycle last,
+    # first and at a section border must report the same cycles
+    for i in range(ctx.n(2, 10)):
+        isa = "x86" if i % 2 == 0 else "aarch64"
+        arch = [m for m in (c06.X86_MODELS if isa == "x86" else c06.A64_MODELS) if m in avail][0]
+        pipe = deps.Pipeline(ctx, isa, arch=arch)
+        text, singles = long_body(ctx.rng, isa)
+        n = len(text.strip().split("\n"))
+        rots = sorted(set([(j + 1) % n for j in singles] + [j % n for j in singles] + [ctx.rng.randrange(1, n)]))
+        try:
+            k = depcheck.rotation_oracle(ctx, pipe, text, False, isa, "long body (%d lines, parallel search) on %s" % (n, arch), rots=rots)
+            ctx.nontriv(text)
+            ctx.coverage["long_body_rotations"] = ctx.coverage.get("long_body_rotations", 0) + k
+        except Exception as e:  # noqa
+            ctx.coverage.setdefault("memory_kernel_errors", []).append(repr(e)[:200])
     import pressure, models
     pairs = []
     for f in pressure.kernel_files():
